@@ -63,12 +63,18 @@ def cache_discipline(repo: Repo, R):
     if len(body_calls) != 1:
         raise AnalysisError(f"idiom-unknown: generator body call in {fr.site}")
     lookups = [st for st in au.stmts(fr.node) if isinstance(st, ast.Assign) and pat.match("$C.done.get(call, None)", st.value)]
+    # (canonical spelling of the look-up: `if call in <cache>.done: return <cache>.done[call]`)
+    lookup_ifs = [n for n in au.walk_no_nested(fr.node) if isinstance(n, ast.If) and pat.match("call in $C.done", n.test) is not None]
+    if not lookups and len(lookup_ifs) == 1:
+        lookups = lookup_ifs
     stores = [st for st in au.stmts(fr.node) if isinstance(st, ast.Assign) and isinstance(st.targets[0], ast.Subscript) and ast.unparse(st.targets[0].value).endswith(".done") and ast.unparse(st.targets[0].slice) == "call"]
     if len(lookups) != 1 or len(stores) != 1:
         raise AnalysisError(f"idiom-unknown: cache lookup/store in {fr.site}")
 
     class C(Client):
         def transfer(self, node, w):
+            if node.kind == "test" and node.ast is lookups[0]:
+                w = w | {"LOOKED-UP"}
             if node.kind == "stmt":
                 if node.ast is lookups[0]:
                     w = w | {"LOOKED-UP"}
@@ -83,6 +89,9 @@ def cache_discipline(repo: Repo, R):
     R.check(ok_lookup, rule, key_of(fr, "lookup-before-body"), fr.site, f"with caching enabled the body runs only after the cache was consulted: {ok_lookup} ({len(cached_paths)} path state(s))", why="an identical call runs the body again and returns a second Module")
     hits = [r for r in shared.returns_of(fr.node) if r.value is not None and pat.match("$C.done.get(call)", shared.prov(fr.node, r.value)) is not None]
     hit = len(hits) == 1 and isinstance(hits[0].value, ast.Name) and shared.cond_match(fr.node, hits[0], f"{hits[0].value.id} is None", False, use_prov=False)
+    if not hits:
+        hits2 = [r for r in shared.returns_of(fr.node) if r.value is not None and pat.match("$C.done[call]", shared.prov(fr.node, r.value)) is not None]
+        hit = len(hits2) == 1 and shared.presence(fr.node, hits2[0], ast.unparse(shared.prov(fr.node, hits2[0].value).value), "call") is True
     R.check(hit, rule, key_of(fr, "hit-returns-cached"), fr.site, f"a cache hit returns the cached Module itself: {hit}", why="equal calls return different Modules")
     sn = cfg.nodes_for(stores[0])
     ok_store = bool(sn) and all("BODY-RAN" in w and ("cond", "call.gen.enable_cache", True) in w for n in sn for w in IN[n.id]) and isinstance(stores[0].value, ast.Name) and any(isinstance(st_, ast.Assign) and len(st_.targets) == 1 and isinstance(st_.targets[0], ast.Name) and st_.targets[0].id == stores[0].value.id and any(x is body_calls[0] for x in ast.walk(st_.value)) for st_ in au.stmts(fr.node))
